@@ -86,6 +86,9 @@ func checkFormat(t vlib.TB, test string, d int64, frac bool) {
 	if int64(back) != d {
 		t.Fatalf("C20 round trip: %d formats (%s) as %q which parses back to %d", d, style, s, int64(back))
 	}
+	if m, mp := mustParseNoPanic(s); mp != nil || int64(m) != d {
+		t.Fatalf("C20 round trip: %d formats (%s) as %q which MustParseDuration, the parser's twin without an error result, turns into %d (panic %v)", d, style, s, int64(m), mp)
+	}
 	if !frac && d == int64(time.Duration(d)) {
 		// SmartDurationString is the compact style
 		if s2, p2 := func() (s string, p any) {
@@ -241,10 +244,19 @@ func parseNoPanic(s string) (d time.Duration, err error, p any) {
 	return
 }
 
+func mustParseNoPanic(s string) (d time.Duration, p any) {
+	defer func() { p = recover() }()
+	return times.MustParseDuration(s), nil
+}
+
 func checkParse(t vlib.TB, test, s string) {
 	got, gerr, p := parseNoPanic(s)
 	if p != nil {
 		t.Fatalf("C20 parser panics on %q: %v", s, p)
+	}
+	// the parser's twin without an error result: the same value for everything the parser accepts
+	if m, mp := mustParseNoPanic(s); mp != nil || (gerr == nil && m != got) {
+		t.Fatalf("C20 parser twins differ on %q: ParseDuration = %d (err %v), MustParseDuration = %d (panic %v)", s, got, gerr, m, mp)
 	}
 	ref, hasDay, fracDays, _ := rewriteDays(s)
 	want, werr := time.ParseDuration(ref)
